@@ -116,6 +116,7 @@ type VecWideSpec struct {
 	Seed   uint32 `json:"seed"`
 	Every  int    `json:"every"`           // docs with i%Every==Every-1 carry no vector (0 = all carry one)
 	Multi  int    `json:"multi,omitempty"` // docs with i%Multi==1 carry a second vector in the field (0 = none)
+	Same   bool   `json:"same,omitempty"`  // every vector is the same one (1, 0, ..., 0)
 }
 
 // SynWideSpec is a parametric description of many synonym documents that all
@@ -167,7 +168,9 @@ func (w *VecWideSpec) expand() []DocSpec {
 		}
 		for ; nv > 0; nv-- {
 			v := make([]float32, w.Dim)
-			if w.Metric == "cosine" {
+			if w.Same {
+				v[0] = 1
+			} else if w.Metric == "cosine" {
 				a := int(next()) % w.Dim
 				if next()%2 == 0 {
 					v[a] = 1
